@@ -197,7 +197,10 @@ type splitCase struct {
 	lens    map[string]int64 // param name -> fixed length
 	assume  []string         // extra assumptions (spec text)
 	noPrune bool
+	vals    map[string]int64 // scalar parameter fixed to a value
 }
+
+var splitValRe = regexp.MustCompile(`^value\s+(\w+)\s+in\s+(\d+)\.\.(\d+)$`)
 
 var splitRe = regexp.MustCompile(`^len\((\w+)\)\s+in\s+(\d+)\.\.(\d+)(\s+else)?$`)
 
@@ -229,6 +232,31 @@ func (e *Engine) splitCases(c *Contract) []splitCase {
 					nc.label += lab
 					nc.assume = append(append([]string{}, base.assume...), txt)
 					nc.noPrune = true
+					next = append(next, nc)
+				}
+			}
+			cases = next
+			continue
+		}
+		if mv := splitValRe.FindStringSubmatch(strings.TrimSpace(sp.Text)); mv != nil {
+			// value split of a scalar parameter (complete when the precondition bounds it)
+			lo, _ := strconv.ParseInt(mv[2], 10, 64)
+			hi, _ := strconv.ParseInt(mv[3], 10, 64)
+			var next []splitCase
+			for _, base := range cases {
+				for v := lo; v <= hi; v++ {
+					nc := splitCase{label: base.label, lens: map[string]int64{}, assume: base.assume, noPrune: base.noPrune, vals: map[string]int64{}}
+					for k, x := range base.lens {
+						nc.lens[k] = x
+					}
+					for k, x := range base.vals {
+						nc.vals[k] = x
+					}
+					nc.vals[mv[1]] = v
+					if nc.label != "" {
+						nc.label += ","
+					}
+					nc.label += fmt.Sprintf("%s=%d", mv[1], v)
 					next = append(next, nc)
 				}
 			}
@@ -431,6 +459,9 @@ func (e *Engine) verifyVariant(fn *ssa.Function, c *Contract, plan aliasPlan, sc
 				fl = l
 			}
 			args[i] = e.makeParamValue(st, p.Name(), p.Type(), fl, 0)
+			if v, ok := sc.vals[p.Name()]; ok {
+				args[i] = mkInt64(v)
+			}
 			if t, ok := args[i].(*Term); ok && t.Op == "var" && t.Sort == SInt {
 				for _, r := range c.Requires {
 					if m := regexp.MustCompile(`^` + regexp.QuoteMeta(p.Name()) + ` <= (\d+)$`).FindStringSubmatch(strings.TrimSpace(r.Text)); m != nil {
@@ -466,7 +497,7 @@ func (e *Engine) verifyVariant(fn *ssa.Function, c *Contract, plan aliasPlan, sc
 	seenInv := map[string]bool{}
 	for i, p := range fn.Params {
 		for _, inv := range e.invariantsOfValue(st, args[i], p.Type(), p.Name()) {
-			if c.Weak[p.Name()] && inv.top {
+			if c.Weak[p.Name()] && (inv.top || inv.composite) {
 				continue
 			}
 			if !seenInv[inv.t.Key()] {
@@ -503,6 +534,10 @@ func (e *Engine) verifyVariant(fn *ssa.Function, c *Contract, plan aliasPlan, sc
 	e.eagerPrune = len(sc.assume) > 0 && !sc.noPrune
 	defer func() { e.eagerPrune = false }()
 	st.entryH = len(st.hyps)
+	st.entrySubst = make(map[string]*Term, len(st.subst))
+	for k, v := range st.subst {
+		st.entrySubst[k] = v
+	}
 	old := st.fork()
 	// vacuity guard: the entry assumptions must be satisfiable
 	e.addCover(st, "entry")
@@ -567,6 +602,8 @@ func (e *Engine) checkReturn(ex Exit, fr *Frame, fn *ssa.Function, c *Contract, 
 		env.vars[k] = v
 	}
 	env.results = ex.results
+	// cut points / intermediate lemmas positioned at the return
+	e.checkCutsAt(st, fr, true)
 	// lemma instances requested by the contract
 	for _, u := range c.Using {
 		e.tryLemma(st, env, u)
